@@ -6,8 +6,9 @@ package main
 // releases the parked ones in the scripted order. Exactly one goroutine runs at any time, so the
 // schedule is deterministic.
 //
-//	begin T <sk> <k> <eps>   start goroutine T (UpdateServiceEndpoints), run it to the gate
-//	step T                   release T: it runs to completion, or (repaired code) to the gate again
+//	begin T <sk> <k> <eps>   start goroutine T (UpdateServiceEndpoints), run it to its first gate
+//	                         ("lookup:after-miss" or "update:after-lookup")
+//	step T                   release T: it runs to its next gate or to completion
 //	upd|delsvc|delshard|prune ...   executed start to end by the scheduling goroutine
 //	end                      finish every goroutine, print linearizability verdict and final index
 
@@ -31,6 +32,9 @@ type thr struct {
 	finished bool
 	orphan   bool // its write landed on a shard set that was no longer linked
 	hid      int  // index of its operation in hist
+	at       string // the gate it is parked at
+	// the entry this goroutine created itself (nil if it found one)
+	createdPtr *model.EndpointShards
 }
 
 type histOp struct {
@@ -50,6 +54,8 @@ type schedSUT struct {
 	line    int
 	lost    int
 	crashed bool
+	// updates that created the service entry but did not return FullPush (oracle clause new-service-full)
+	newSvcNotFull []string
 }
 
 const gateTimeout = 10 * time.Second
@@ -60,12 +66,15 @@ func newSchedSUT() *schedSUT {
 		switch point {
 		case "delete:before-unlink":
 			s.unlinks++
-		case "update:after-lookup":
+		case "update:after-lookup", "lookup:after-miss":
 			t := s.current
 			if t == nil {
 				return // the scheduling goroutine itself: run through
 			}
-			t.ptr, _ = s.idx.ShardsForService(t.o.k.a, t.o.k.b)
+			t.at = point
+			if point == "update:after-lookup" {
+				t.ptr, _ = s.idx.ShardsForService(t.o.k.a, t.o.k.b)
+			}
 			t.parked <- struct{}{}
 			<-t.release
 		}
@@ -78,6 +87,9 @@ func (s *schedSUT) wait(t *thr) string {
 	defer func() { s.current = nil }()
 	select {
 	case <-t.parked:
+		if t.at == "lookup:after-miss" {
+			return "parked miss"
+		}
 		return "parked"
 	case p := <-t.done:
 		t.finished = true
@@ -108,6 +120,8 @@ func (s *schedSUT) stepThread(t *thr) string {
 	if t.finished {
 		return "idle"
 	}
+	_, present := s.idx.ShardsForService(t.o.k.a, t.o.k.b)
+	wasLooked := t.at == "update:after-lookup"
 	s.current = t
 	select {
 	case t.release <- struct{}{}:
@@ -116,15 +130,31 @@ func (s *schedSUT) stepThread(t *thr) string {
 		return "timeout"
 	}
 	r := s.wait(t)
-	if r == "parked" {
-		return "parked retry"
+	s.noteCreation(t, present, r)
+	if wasLooked && strings.HasPrefix(r, "parked") {
+		return "parked retry" + strings.TrimPrefix(r, "parked")
 	}
 	return r
 }
 
+// noteCreation (for the oracle): the service had no entry when the goroutine was released, so the
+// entry it now holds was created by it; when its write lands in that entry this is a new service
+// and the push must be full.
+func (s *schedSUT) noteCreation(t *thr, presentBefore bool, r string) {
+	if !presentBefore && r == "parked" {
+		t.createdPtr = t.ptr
+	}
+	if strings.HasPrefix(r, "done ") && r != "done orphan" && r != "done crash" && r != "done Full" && len(t.o.eps) > 0 {
+		cur, ok := s.idx.ShardsForService(t.o.k.a, t.o.k.b)
+		if !presentBefore || (ok && t.createdPtr != nil && cur == t.createdPtr) {
+			s.newSvcNotFull = append(s.newSvcNotFull, t.name+":"+r)
+		}
+	}
+}
+
 func (s *schedSUT) finishAll() {
 	for _, t := range s.order {
-		for i := 0; i < 8 && !t.finished; i++ {
+		for i := 0; i < 12 && !t.finished; i++ {
 			if s.stepThread(t) == "timeout" {
 				break
 			}
@@ -151,6 +181,7 @@ func (s *schedSUT) apply(f []string) (out string) {
 		s.order = append(s.order, t)
 		t.hid = len(s.hist)
 		s.hist = append(s.hist, histOp{id: t.hid, o: o, start: s.line, open: true})
+		_, presentBefore := s.idx.ShardsForService(o.k.a, o.k.b)
 		s.current = t
 		go func() {
 			defer func() {
@@ -164,6 +195,7 @@ func (s *schedSUT) apply(f []string) (out string) {
 		if r == "done orphan" { // an empty report has no lookup: never an orphan write
 			r = "done Incremental"
 		}
+		s.noteCreation(t, presentBefore, r)
 		return s.out(r)
 	case f[0] == "step" && len(f) == 2:
 		t := s.threads[f[1]]
@@ -306,7 +338,7 @@ func genSched(seed uint64, n int, outp string, header string) {
 		nthreads := 1 + r.Intn(3)
 		var active []string
 		begun := 0
-		steps := 2 + r.Intn(6)
+		steps := 3 + r.Intn(8)
 		for i := 0; i < steps; i++ {
 			switch x := r.Intn(10); {
 			case x < 4 && begun < nthreads:
@@ -321,10 +353,10 @@ func genSched(seed uint64, n int, outp string, header string) {
 				}
 				out.Line("begin", name, o.sk.enc(), o.k.enc(), encEps(o.eps))
 				active = append(active, name)
-			case x < 6 && len(active) > 0:
+			case x < 7 && len(active) > 0:
 				j := r.Intn(len(active))
 				out.Line("step", active[j])
-				if r.Chance(2, 3) {
+				if r.Chance(1, 4) {
 					active = append(active[:j], active[j+1:]...)
 				}
 			default:
@@ -334,7 +366,7 @@ func genSched(seed uint64, n int, outp string, header string) {
 		for len(active) > 0 {
 			j := r.Intn(len(active))
 			out.Line("step", active[j])
-			if r.Chance(1, 2) {
+			if r.Chance(1, 3) {
 				active = append(active[:j], active[j+1:]...)
 			}
 			if r.Chance(1, 4) {
@@ -350,6 +382,7 @@ func genSched(seed uint64, n int, outp string, header string) {
 // Runs the scripted schedule on the real index and states the concurrent clause of the property
 // directly, with no reference to the Lean model:
 //   never-crashes        no goroutine panics or hangs;
+//   new-service-full     an update that (re-)creates the service's entry returns FullPush;
 //   report-lost          a registry's only report for a (service, registry) cell that no other
 //                        operation of the case touches is in the final index;
 //   non-linearizable     the final index equals the result of executing the operations one at a
@@ -403,6 +436,9 @@ func oracleSched(in, outp string) {
 		}
 		if s.crashed {
 			v = "FAIL never-crashes"
+		}
+		if v == "OK" && len(s.newSvcNotFull) > 0 {
+			v = "FAIL new-service-full " + wire.Enc(strings.Join(s.newSvcNotFull, ","))
 		}
 		if verdict != "" {
 			v = verdict
